@@ -404,7 +404,7 @@ func body(c *hk.Ctx) {
 	}
 
 	// ---- the system under test ----
-	envId := uid.New()
+	envId := uid.ID("2rE9AV3m1HL") // a fixed id: the process-wide generator keeps state across runs
 	env, err := environment.NewEnvironmentForVerif(map[string]string{}, envId,
 		func(parent workflow.Updatable) (workflow.Role, error) {
 			var roles []workflow.Role
